@@ -276,6 +276,29 @@ class SymArr:
     def T(self):
         return self.transpose()
 
+    # numpy's augmented assignments update the array in place: every alias / view of the same storage sees the change
+    def _inplace(self, r):
+        if not isinstance(r, SymArr):
+            r = SymArr.of(r)
+        if tuple(r.shape) != tuple(self.shape):
+            raise ValueError("non-broadcastable output operand with shape %s doesn't match the broadcast shape %s" % (tuple(self.shape), tuple(r.shape)))
+        if self.ndim == 0:
+            raise A.Undecided("in-place update of a 0-d array")
+        self[tuple(slice(None) for _ in self.shape)] = r
+        return self
+
+    def __iadd__(self, o):
+        return self._inplace(self + o)
+
+    def __isub__(self, o):
+        return self._inplace(self - o)
+
+    def __imul__(self, o):
+        return self._inplace(self * o)
+
+    def __itruediv__(self, o):
+        return self._inplace(self / o)
+
     def swapaxes(self, i, j):
         n = self.ndim
         if not all(isinstance(a, int) and not isinstance(a, bool) and -n <= a < n for a in (i, j)):
